@@ -41,10 +41,17 @@ fn init(property: &str) {
           sigs.push(s.to_string());
           if let Some((_, key)) = s.split_once('|') {
             let f = key.rsplit(':').next().unwrap_or(key);
+            let _ = f;
             if key.contains("rustdds::") {
-              frames.push(key[key.find("rustdds::").unwrap()..].to_string());
-            } else {
-              let _ = f;
+              // backtraces of this build print short function names
+              let path = &key[key.find("rustdds::").unwrap()..];
+              let segs: Vec<&str> = path.split("::").collect();
+              let last = segs[segs.len() - 1];
+              if last.len() >= 8 {
+                frames.push(last.to_string());
+              } else if segs.len() >= 2 {
+                frames.push(format!("{}::{}", segs[segs.len() - 2], last));
+              }
             }
           }
         }
